@@ -1,6 +1,7 @@
 package main
 
 import (
+	"sync"
 	"fmt"
 	"sort"
 	"go/token"
@@ -314,11 +315,26 @@ func (fr *Frame) callMethodByIface(st *State, m *types.Func, args []*Val, pos to
 	return fr.havocCall(st, args, sig)
 }
 
+var lockContracts sync.Map
+
 func (fr *Frame) callFunction(st *State, fn *ssa.Function, bindings []*Val, args []*Val, pos token.Pos) []*Val {
 	x := fr.x
 	name := fn.String()
 	if fn.Origin() != nil {
 		name = fn.Origin().String()
+	}
+	if _, ok := intrinsics[name]; ok && strings.HasPrefix(name, "(*sync.") {
+		// a lock operation the function under verification gives a meaning to
+		// (`callee Lock ensures <monitor invariant>`): acquire havocs what the
+		// monitor protects and hands out the invariant
+		if top := x.top; top != nil && top.contract != nil {
+			k := name[strings.LastIndex(name, ".")+1:]
+			if len(top.contract.CalleeEns[k]) > 0 || len(top.contract.CalleeAsg[k]) > 0 {
+				lcv, _ := lockContracts.LoadOrStore(name, &FuncContract{Key: name, Trusted: true, HasAssigns: true})
+				lc := lcv.(*FuncContract)
+				return fr.callWithContract(st, lc, fn, fn.Signature, name, args, pos)
+			}
+		}
 	}
 	if h, ok := intrinsics[name]; ok {
 		return h(fr, st, args, pos)
@@ -571,6 +587,9 @@ func (fr *Frame) callWithContract(st *State, c *FuncContract, fn *ssa.Function, 
 		if abstractedCall {
 			break // neither checked nor assumed: the callee is treated as an unknown function with this frame
 		}
+		if r.Assumed {
+			continue
+		}
 		g, err := env.evalBool(r.Expr)
 		if err != nil {
 			x.vc.diag("%s: requires of %s: %v", fr.fn.String(), name, err)
@@ -743,7 +762,16 @@ func (fr *Frame) callWithContract(st *State, c *FuncContract, fn *ssa.Function, 
 		x.vc.assume(tImp(st.pc, g))
 	}
 	for _, e := range extraEns {
-		g, err := env.assuming().evalBool(e.Expr)
+		// written in the caller's contract: the caller's locals are visible
+		// (callee parameter and result names take precedence)
+		env2 := *env
+		if env2.lookup == nil {
+			// caller_x names the caller's x even when the callee has a parameter x
+			env2.lookup = func(s *State, name string) (*Val, bool) {
+				return fr.lookupLocal(s, strings.TrimPrefix(name, "caller_"), pos)
+			}
+		}
+		g, err := env2.assuming().evalBool(e.Expr)
 		if err != nil {
 			x.vc.diag("%s: callee %s ensures %q: %v", fr.fn.String(), calleeKey, e.Text, err)
 			continue
@@ -1236,6 +1264,7 @@ func (fr *Frame) sliceWriteFrame(st *State, s *Val, pos token.Pos, what string) 
 
 func (fr *Frame) runDefers(st *State) {
 	x := fr.x
+	fr.deferSite++
 	for i := len(fr.defers) - 1; i >= 0; i-- {
 		d := fr.defers[i]
 		// run under the condition that the defer statement was reached
@@ -1249,6 +1278,14 @@ func (fr *Frame) runDefers(st *State) {
 			sub.pc = x.vc.def("pc", sBool, tAnd(st.pc, guard))
 		}
 		x.vc.pcNow = sub.pc
+		// deferred calls run at every exit, also those the defer statement
+		// does not reach: no reachability covers below here
+		x.inDefer++
+		if gc := fr.gateContract(); gc != nil && len(gc.Reach) > 0 {
+			fr.runningDefer = d
+			fr.reachCheck(sub, d.call, gc)
+			fr.runningDefer = nil
+		}
 		if c.IsInvoke() {
 			fr.callMethodByIface(sub, c.Method, append([]*Val{d.fnv}, d.args...), d.call.Pos())
 		} else if b, ok := c.Value.(*ssa.Builtin); ok {
@@ -1256,6 +1293,7 @@ func (fr *Frame) runDefers(st *State) {
 		} else {
 			fr.callValue(sub, d.fnv, d.args, d.call.Pos(), c.Signature())
 		}
+		x.inDefer--
 		if guard == st.pc || impliesSyntactically(st.pc, guard) {
 			sub.pc = st.pc
 			*st = *sub
